@@ -19,6 +19,12 @@ impl Elem for u8 {
         format!("{}", self)
     }
 }
+impl Elem for i8 {
+    const TAG: &'static str = "b";
+    fn enc(&self) -> String {
+        format!("{}", self)
+    }
+}
 impl Elem for usize {
     const TAG: &'static str = "n";
     fn enc(&self) -> String {
